@@ -32,10 +32,13 @@ from slimta import logging
 from . import ConnectionLost, BadReply
 
 try:
-    from gevent.ssl import SSLWantReadError
+    from gevent.ssl import SSLWantReadError, SSLWantWriteError
 except ImportError:
     # Some supported versions of gevent won't have this.
     class SSLWantReadError(Exception):
+        pass
+
+    class SSLWantWriteError(Exception):
         pass
 
 __all__ = ['IO']
@@ -71,10 +74,12 @@ class IO(object):
         log.close(self.socket)
         if self.encrypted:
             try:
+                # Send our close_notify, but never wait for the peer's.
+                self.socket.settimeout(0.0)
                 self.socket.unwrap()
             except ValueError:
                 pass
-            except SSLWantReadError:
+            except (SSLWantReadError, SSLWantWriteError):
                 pass
             except socket_error as e:
                 if e.errno not in (0, EPIPE, ECONNRESET):
